@@ -73,6 +73,9 @@ fn reject_class(r: &Runner, call: &Call) -> Option<&'static str> {
                 Some("empty-broadcast")
             } else if b.len() > r.inst.cfg.max_packet as usize {
                 Some("oversized-broadcast")
+            } else if b.len() > u16::MAX as usize {
+                // fits the packet limit but not the 16-bit length prefix of the wire format: DataTooBig
+                Some("broadcast-exceeds-length-prefix")
             } else {
                 None
             }
@@ -283,10 +286,11 @@ pub fn exec_twin(case: &TwinCase, out: &mut CaseOut) -> Result<(), Fail> {
             "change-to-same-identity" => "ins_same_identity",
             "invalid-config" => "ins_invalid_config",
             "empty-broadcast" => "ins_empty_broadcast",
+            "broadcast-exceeds-length-prefix" => "ins_broadcast_exceeds_length_prefix",
             _ => "ins_oversized_broadcast",
         });
     }
-    if classes.len() >= 3 && mid_probe && pending_updates {
+    if (classes.len() >= 3 && mid_probe && pending_updates) || classes.contains("broadcast-exceeds-length-prefix") {
         out.class("nontrivial_twins");
         out.nontrivial((classes.iter().collect::<Vec<_>>(), codec));
     }
@@ -294,6 +298,42 @@ pub fn exec_twin(case: &TwinCase, out: &mut CaseOut) -> Result<(), Fail> {
         out.sample = Some(serde_json::json!({"setup": case.setup, "base_calls": n, "insertion_classes": classes, "tail": tail}));
     }
     Ok(())
+}
+
+/// Packet limits above 64 KiB: an item may respect max_packet_size and still be rejected (DataTooBig)
+/// because its length does not fit the wire format's 16-bit prefix; the handler must not have seen it.
+pub struct TwinHugePart;
+impl Part for TwinHugePart {
+    type Case = TwinCase;
+    fn name(&self) -> &'static str {
+        "twin-histories-packet-limit-above-64k"
+    }
+    fn strategy(&self, _t: Tier) -> BoxedStrategy<TwinCase> {
+        let mut p = Profile::default();
+        p.max_len = 40;
+        p.api_sends = 30;
+        let mut sp = SetupProfile::default();
+        sp.codecs = vec![CodecKind::Fix, CodecKind::Var, CodecKind::Postcard];
+        sp.packet = vec![(65_600, 70_000), (100_000, 131_073)];
+        let big = (65_536..131_073u32, 0..4u8, 0..8u8).prop_map(|(len, key, version)| Op::AddBroadcastBig { len, key, version });
+        let ins_op = prop_oneof![4 => big, 1 => insert_op(&p)];
+        let ins = proptest::collection::vec((any::<u16>(), proptest::collection::vec(ins_op, 1..3)), 1..6);
+        let base = prop_oneof![3 => op(&p), 2 => item_spec().prop_map(Op::AddBroadcast), 1 => Just(Op::Gossip), 1 => Just(Op::Broadcast)];
+        (setup(&sp), proptest::collection::vec(base, 1..p.max_len), ins)
+            .prop_map(|(mut setup, ops, inserts)| {
+                if !setup.handler.enabled {
+                    setup.handler = crate::handler::HandlerSpec::SIMPLE;
+                }
+                TwinCase { setup, ops, inserts }
+            })
+            .boxed()
+    }
+    fn cases(&self, tier: Tier) -> u64 {
+        tier.pick(3_000, 100_000)
+    }
+    fn exec(&self, case: &TwinCase, out: &mut CaseOut) -> Result<(), Fail> {
+        exec_twin(case, out)
+    }
 }
 
 impl Part for TwinPart {
@@ -319,12 +359,13 @@ impl Part for TwinPart {
 pub fn run(ctx: &Ctx, report: &mut Report) -> EvidenceMeta {
     ctx.replay_corpus("wire_bytes", report);
     ctx.run_part(&TwinPart, report);
+    ctx.run_part(&TwinHugePart, report);
     if ctx.tier == Tier::Thorough {
         ctx.fuzz_campaign("wire_bytes", 20_000_000, 300, report);
     }
     EvidenceMeta {
         level: "exploration",
-        rule: "proptest twin runs: a random base history (datagrams of every kind, timers, API calls, custom broadcasts; FixCodec/VarCodec/PostcardCodec; packet sizes 60..200 and 1400) is executed three times from the same seed: twice as is (determinism) and once with 1..7 insertion points each carrying 1..3 candidate rejected inputs. A candidate is inserted only if the harness's own structural classifier (not Foca) puts it in a class the statement names (oversized, header undecodable, member list undecodable, from own identity/address, stray byte after header, Announce with data, not addressed to the instance, stale-epoch timer from the instance's own past, reuse_down_identity when not Defunct, change_identity(current), invalid config, empty/oversized add_broadcast); otherwise it is counted as skipped. Oracle: each inserted call emits nothing and leaves every getter and the hook snapshot unchanged, and every base call has identical concrete arguments, result, sends, timers, notifications, handler calls and after-state in all three runs. Non-trivial: >= 3 different rejection classes inserted, at least one while a probe round is open and one while updates are pending; distinct = (set of classes, codec)."
+        rule: "proptest twin runs: a random base history (datagrams of every kind, timers, API calls, custom broadcasts; FixCodec/VarCodec/PostcardCodec; packet sizes 60..200 and 1400) is executed three times from the same seed: twice as is (determinism) and once with 1..7 insertion points each carrying 1..3 candidate rejected inputs. A candidate is inserted only if the harness's own structural classifier (not Foca) puts it in a class the statement names (oversized, header undecodable, member list undecodable, from own identity/address, stray byte after header, Announce with data, not addressed to the instance, stale-epoch timer from the instance's own past, reuse_down_identity when not Defunct, change_identity(current), invalid config, empty/oversized add_broadcast, and - in a second part with packet limits of 65600..131072 bytes and a stateful handler - add_broadcast of an item that respects the limit but not the 16-bit length prefix); otherwise it is counted as skipped. Oracle: each inserted call emits nothing and leaves every getter and the hook snapshot unchanged, and every base call has identical concrete arguments, result, sends, timers, notifications, handler calls and after-state in all three runs. Non-trivial: >= 3 different rejection classes inserted, at least one while a probe round is open and one while updates are pending, or an item beyond the length prefix inserted; distinct = (set of classes, codec)."
             .into(),
         assumptions: vec![
             "datagrams whose header and member list are valid but whose custom-broadcast tail is malformed are processed before the error is returned; they are not in the statement's list and are never inserted".into(),
@@ -336,6 +377,7 @@ pub fn replay(part_name: &str, case: &Value) -> Option<Result<(), Fail>> {
     match part_name {
         p if p.starts_with("fuzz:") => replay_fuzz(p, case),
         "twin-histories" => Some(replay_with(&TwinPart, case)),
+        "twin-histories-packet-limit-above-64k" => Some(replay_with(&TwinHugePart, case)),
         _ => None,
     }
 }
